@@ -479,7 +479,13 @@ func compareOutcome(out *evalOutcome, want map[string]string) string {
 		if !found {
 			return fmt.Sprintf("%s absent, required %s", k, w)
 		}
-		if !wild(w, got) {
+		okAlt := false
+		for _, alt := range strings.Split(w, " || ") {
+			if wild(alt, got) {
+				okAlt = true
+			}
+		}
+		if !okAlt {
 			return fmt.Sprintf("%s = %s, required %s", k, got, w)
 		}
 	}
